@@ -246,7 +246,7 @@ def gen_encoding(rng: random.Random, tier: str) -> dict:
     order = rng.sample(levels, n) if explicit and rng.random() < 0.5 else levels
     return {"n": n, "kind": kind, "opts": o, "labels": labels, "data": data, "explicit_levels": explicit,
             "level_order": order if explicit else None, "reduced": rng.random() < 0.6,
-            "output": rng.choice(["pandas", "numpy", "sparse"]), "path": rng.choice(["direct", "formula", "formula"])}
+            "output": rng.choice(["pandas", "numpy", "sparse"]), "path": rng.choice(["direct", "formula", "formula", "apply"])}
 
 
 def judge_encoding(case) -> Outcome:
@@ -288,6 +288,13 @@ def judge_encoding(case) -> Outcome:
                                        reduced_rank=case["reduced"], output=case["output"], _state={})
                 got = arr(getattr(enc, "__wrapped__", enc))
                 names = list(enc.__formulaic_metadata__.column_names)
+            elif case["path"] == "apply":  # the contrasts applied to an indicator matrix held in the container the output type names
+                import scipy.sparse as sp
+
+                dummies = {"pandas": pd.DataFrame(ind, columns=list(levels)), "numpy": ind.copy(), "sparse": sp.csc_matrix(ind)}[case["output"]]
+                enc = c.apply(dummies, levels=levels, reduced_rank=case["reduced"])
+                got = arr(getattr(enc, "__wrapped__", enc))
+                names = list(enc.__formulaic_metadata__.column_names)
             else:
                 df = pd.DataFrame({"v": series})
                 ctx = {"cc": c, "lv": levels}
@@ -312,7 +319,7 @@ def judge_encoding(case) -> Outcome:
     if not ok:
         out.fail("c11.encoding", f"{tag}: encoded rows {got[:3].tolist()} != indicator @ coding {expected[:3].tolist()} (shape {got.shape} vs {expected.shape})")
     exp_names = [str(x) for x in c.get_coding_column_names(levels, reduced_rank=case["reduced"])]
-    if case["path"] == "direct":
+    if case["path"] in ("direct", "apply"):
         if [str(x) for x in names] != exp_names:
             out.fail("c11.encoding_names", f"{tag}: names {names} != {exp_names}")
     else:
